@@ -329,6 +329,13 @@ async fn crash_enum_impl(maxlen: usize, name: &str, part: usize, parts: usize) {
 			// watchdog: a program that does not finish is reported as a hang (C17 territory), not as a lost commit
 			let h = tokio::spawn(run_program(script.clone(), root.path().to_path_buf()));
 			let bad = match tokio::time::timeout(std::time::Duration::from_secs(90), h).await {
+				// a failure of the HARNESS (no stable copy of the directory could be taken) decides nothing
+				Ok(Ok(Some(b))) if b.contains("harness could not") => {
+					if hangs.len() < 5 {
+						hangs.push(format!("\"{:?}: {}\"", script, b));
+					}
+					None
+				}
 				Ok(Ok(b)) => b,
 				Ok(Err(e)) => Some(format!("the store panicked: {e}")),
 				Err(_) => {
